@@ -28,13 +28,14 @@
 //!
 //! Reporting: statistics flow upwards, so only the LOWEST violating nodes of a case are reported (root causes); each is
 //! keyed `exact-[partition-|registry-]<statistic>@<Operator>[qualifier]` unless one of the specific signatures applies.
-//! Known findings (open): `exact-min_max@DataSourceExec[parquet+cast]` (CAST keeps Exact min/max — WRONG RESULT for
-//! max(CAST(x AS VARCHAR)) over Parquet, fix verified), `join-output-keeps-exact-column-statistics`,
-//! `file-scan-partition-statistics-under-work-stealing`, `file-scan-partition-statistics-ignore-predicate`,
-//! `partitioned-topk-sort-statistics` (fixes verified), `exact-num_rows@DataSourceExec[parquet+limit]`,
-//! `exact-num_rows@DataSourceExec[memory+limit]`, `exact-min_max@UnionExec`, `exact-min_max@FilterExec`,
-//! `exact-partition-min_max@AggregateExec[Partial+lim]`, `exact-partition-null_count@HashJoinExec[mark]` (no repair
-//! proposed). The work-stealing case is racy and lives in regressions/C29/c29-known/ (not replayed as a regression).
+//! Known findings (open; one signature per root cause — the statistics call that exposed it is not part of the key):
+//! `cast-keeps-exact-min-max` (WRONG RESULT for max(CAST(x AS VARCHAR)) over Parquet), `join-output-keeps-exact-column-statistics`,
+//! `file-scan-partition-statistics-ignore-predicate`, `partitioned-topk-sort-statistics`,
+//! `file-scan-partition-statistics-under-work-stealing` (racy: excluded by case SHAPE up front — stealing on, >= 2 target
+//! partitions, a Parquet table of >= 2 files; its case lives in regressions/C29/c29-known/), `scan-limit-ignored-in-statistics[parquet]`
+//! / `[memory]`, `exact-min_max@UnionExec`, `filter-infeasible-interval-exact-column-statistics`,
+//! `limited-aggregate-keeps-exact-column-statistics`, `mark-join-partition-statistics-of-preserved-side`,
+//! `exact-registry-num_rows@CoalescePartitionsExec[fetch]`. C29 cases run on a single-threaded runtime (determinism).
 //!
 //! Sensitivity probes (probes.diff, `VFW_MUT=`):
 //! * `filter-exact` — FilterExec keeps its input's Exact row count: CAUGHT at quick tier (17 cases: "FilterExec: id@0 = a@1 —
@@ -425,7 +426,18 @@ fn classify(n: &WalkNode, scope: Scope, msg: &str, stealing: bool) -> Option<Str
         // known finding: per-partition statistics of a file scan ignore its predicate
         return Some("file-scan-partition-statistics-ignore-predicate".into());
     }
-    if scope == Scope::Partition && stealing && parquet_multi_group(&n.plan) {
+    // … or an operator that hands the scan's per-partition statistics on unchanged (each node is executed on its own, so
+    // the steal may show in the run of such a parent while the scan's own run was clean); joins, aggregates, limits above
+    // the scan are NOT filed here
+    fn hands_on(p: &Arc<dyn datafusion::physical_plan::ExecutionPlan>, scan: &dyn Fn(&Arc<dyn datafusion::physical_plan::ExecutionPlan>) -> bool) -> bool {
+        if scan(p) {
+            return true;
+        }
+        let d = walk::one_line_full(p.as_ref());
+        let transparent = (p.name().starts_with("SortExec") && !d.contains("TopK(")) || p.name() == "ProjectionExec" || p.name() == "CoalesceBatchesExec";
+        transparent && p.children().len() == 1 && hands_on(p.children()[0], scan)
+    }
+    if scope == Scope::Partition && stealing && hands_on(&n.plan, &parquet_multi_group) {
         // known finding: per-partition statistics of a file scan stay Exact although sibling partitions share the files
         return Some("file-scan-partition-statistics-under-work-stealing".into());
     }
@@ -466,17 +478,27 @@ fn classify(n: &WalkNode, scope: Scope, msg: &str, stealing: bool) -> Option<Str
         x if x.contains("Join") => (if mark_join { "[mark]" } else { "" }).to_string(),
         "CoalescePartitionsExec" => (if d.contains("fetch=") { "[fetch]" } else { "" }).to_string(),
         "AggregateExec" => {
-            let mode = d.split("mode=").nth(1).and_then(|r| r.split(',').next()).unwrap_or("");
-            format!("[{mode}{}]", if d.contains("lim=[") { "+lim" } else { "" })
+            (if d.contains("lim=[") { "[lim]" } else { "" }).to_string()
         }
         _ => String::new(),
     };
-    let scope_s = match scope {
-        Scope::Partition => "partition-",
-        Scope::Registry => "registry-",
-        Scope::Whole => "",
-    };
+    // one signature per root cause: the statistics call that happened to expose it (whole node / a partition / registry)
+    // is not part of the key, except for defects of the registry's own providers
+    let scope_s = if scope == Scope::Registry && n.name == "CoalescePartitionsExec" { "registry-" } else { "" };
     let op = if n.name.starts_with("SortExec") { "SortExec" } else { n.name.as_str() };
+    if qual.contains("cast") && stat == "min_max" {
+        // known finding: CAST keeps Exact min/max (ProjectionExec, or a projection pushed into a scan)
+        return Some("cast-keeps-exact-min-max".into());
+    }
+    if n.name == "DataSourceExec" && qual.contains("+limit") {
+        return Some(format!("scan-limit-ignored-in-statistics{}", if qual.contains("parquet") { "[parquet]" } else { "[memory]" }));
+    }
+    if n.name == "AggregateExec" && qual.contains("lim") && column_stat {
+        return Some("limited-aggregate-keeps-exact-column-statistics".into());
+    }
+    if n.name == "FilterExec" && column_stat {
+        return Some("filter-infeasible-interval-exact-column-statistics".into());
+    }
     Some(format!("exact-{scope_s}{stat}@{op}{qual}"))
 }
 
@@ -647,6 +669,9 @@ impl Property for C29 {
     fn strategy(&self, tier: Tier) -> BoxedStrategy<Case> {
         (walk::case_strategy(tier, Purpose::Stats, 3, 2), prop::collection::vec(backing_strategy(), 3), prop_oneof![3 => Just(true), 1 => Just(false)], prop_oneof![1 => Just(true), 4 => Just(false)])
             .prop_map(|(mut base, backing, collect, stealing)| {
+                // single-threaded runtime: which partition steals a file / emits a mark join's rows / feeds a shared TopK
+                // threshold first must not vary between two evaluations of one case
+                base.variant.flavor = vf_df::Flavor::CurrentThread;
                 base.variant.options.push(("datafusion.execution.collect_statistics".to_string(), collect.to_string()));
                 if !stealing {
                     base.variant.options.push(("datafusion.execution.enable_file_stream_work_stealing".to_string(), "false".to_string()));
@@ -673,6 +698,15 @@ impl Property for C29 {
         ]
     }
     fn known_signature(&self, case: &Case) -> Option<String> {
+        // The work-stealing finding is racy (which partition reads a file differs from run to run, even on a
+        // single-threaded runtime: file reads go through blocking threads), so a case that can exhibit it is excluded by
+        // SHAPE, up front and deterministically, while the finding is open: stealing on, two or more target partitions and a
+        // Parquet table of two or more files.
+        let stealing = !case.base.variant.options.iter().any(|(k, v)| k.ends_with("enable_file_stream_work_stealing") && v == "false");
+        let multi_file = case.backing.iter().zip(&case.base.tables).any(|(b, t)| matches!(b, Backing::Parquet { files, .. } if *files >= 2) && t.rows.len() >= 2);
+        if stealing && multi_file && case.base.variant.target_partitions >= 2 {
+            return Some("file-scan-partition-statistics-under-work-stealing".into());
+        }
         walk::judged_signature("c29", case, || judge(case))
     }
     fn run(&self, case: &Case) -> CaseResult {
